@@ -31,7 +31,7 @@
    All statements hold for the code with the six `fix:` commits of branch fix-C05 (known_findings.txt); the
    witnesses of the defects they repair are replayed by props/C05/check.py. *)
 From Coq Require Import ZArith List Bool Reals Lia Lra.
-From CV Require Import Base.Num Base.RNum C15.GridModel C05.MetaModel C05.MetaSpec C05.MetaGeom C05.MetaProofs C05.MetaExamples.
+From CV Require Import Base.Num Base.RNum C15.GridModel C05.MetaModel C05.MetaSpec C05.MetaGeom C05.MetaProofs C05.MetaBound C05.MetaExamples.
 Import ListNotations.
 
 (* Energy: at every step, on and off the grid, with and without grids, well-tempered or not, whatever
@@ -152,6 +152,32 @@ Theorem C05_hills_trajectory : forall (c : cfgR) (hist : list eventR),
 Proof. exact trajectory_holds. Qed.
 Print Assumptions C05_hills_trajectory.
 
+(* Discretisation: with grids the returned energy differs from the analytic sum of ALL deposited hills at the actual
+   position by at most  (sum over the tabulated hills of |W_h|) * (exp(-1/2) * sum_i width_i/(2 sigma_i) + exp(-23/2)):
+   the Gaussian exp(-t^2/2) is exp(-1/2)-Lipschitz, a position on the grid is within half a bin of the centre of its
+   bin, and the kernel jumps by less than exp(-23/2) at its cut-off.  Scalar, non-periodic variables ([plain_var]). *)
+Theorem C05_discretisation_energy : forall (c : cfgR) (hist : list eventR) (i : inR),
+  cfg_ok c -> history_ok c (hist ++ [EStep i]) -> c_use_grids c = true -> Forall plain_var (c_vars c) ->
+  (Rabs (out_energy c hist i - Esum (c_vars c) (s_all (spec_run c (hist ++ [EStep i]))) (i_x i))
+   <= Wsum (s_tab (spec_run c (hist ++ [EStep i]))) * lip_bound (c_vars c))%R.
+Proof. exact energy_discretisation. Qed.
+Print Assumptions C05_discretisation_energy.
+
+(* writeFreeEnergyFile: the value written for bin ix of the .pmf file is (M - E(ix)) times (biasTemperature + T)/
+   biasTemperature for well-tempered runs, where E(ix) is the sum of the TABULATED hills at the centre of the bin and M
+   the largest E over the grid (so the minimum of the file is 0); hills not yet tabulated are not in the file *)
+Theorem C05_pmf : forall (c : cfgR) (hist : list eventR) (temp : R) (ix : list Z),
+  cfg_ok c -> history_ok c hist -> c_use_grids c = true ->
+  index_ok (gsizes (s_geom (spec_run c hist))) ix = true ->
+  let E := fun jx => Esum (c_vars c) (s_tab (spec_run c hist)) (centre Rops (c_vars c) (s_geom (spec_run c hist)) jx) in
+  exists M : R,
+    (forall jx, index_ok (gsizes (s_geom (spec_run c hist))) jx = true -> (E jx <= M)%R) /\
+    (exists jx, index_ok (gsizes (s_geom (spec_run c hist))) jx = true /\ M = E jx) /\
+    pmf_value Rops c (final_state Rops c hist) temp ix =
+      ((M - E ix) * (if c_wt c then (c_bias_temp c + temp) / c_bias_temp c else 1))%R.
+Proof. exact pmf_holds. Qed.
+Print Assumptions C05_pmf.
+
 (* a list of admissible steps, saves and plain restarts is an admissible history *)
 Theorem C05_plain_history_ok : forall (c : cfgR) (hist : list eventR),
   Forall (plain_event c) hist -> history_ok c hist.
@@ -193,3 +219,12 @@ Example C05_premises_satisfiable_reload_rebin_from_grids :
   cfg_ok n_cfg /\ history_ok n_cfg [EStep w_i1; EReload; ERestart (Some n_g); EStep w_i1] /\
   c_keep n_cfg = false /\ existsb (@v_expand R) (c_vars n_cfg) = true.
 Proof. exact n_example. Qed.
+
+Example C05_discretisation_premises_satisfiable :
+  cfg_ok w_cfg /\ history_ok w_cfg ([EStep w_i1] ++ [EStep w_i2]) /\ c_use_grids w_cfg = true /\
+  Forall plain_var (c_vars w_cfg) /\ lip_bound (c_vars w_cfg) = (exp (- (1 / 2)) * (1 / (2 * 1) + 0) + exp (- (23 / 2)))%R.
+Proof.
+  destruct w_example as (H1 & H2 & _). split; [exact H1|]. split; [exact H2|]. split; [reflexivity|]. split; [|reflexivity].
+  apply Forall_cons; [|apply Forall_nil]. unfold plain_var, w_var. cbn [v_kind v_periodic v_gperiodic v_sigma v_width].
+  repeat split; lra.
+Qed.
